@@ -80,6 +80,8 @@ try:
         (out / "meta.json").write_text(json.dumps(meta_out, indent=1))
 finally:
     sh(["git", "-C", "/repo", "worktree", "remove", "--force", str(wt)])
+    import hashlib
+    shutil.rmtree(f"/verif/build/alt-{hashlib.md5(str(wt).encode()).hexdigest()[:8]}", ignore_errors=True)
 print(json.dumps({k: rec.get(k) for k in ("patch_applies", "tests", "demo_ok", "confirmed", "detected_by", "error")}, indent=0))
 if rec.get("checks"):
     for p, c in rec["checks"].items():
